@@ -61,7 +61,7 @@ def pairOk (s : SchemaD) (rec : TSels → Bool) (x y : String × FNode) : Bool :
     (match fieldTy s x.1 x.2, fieldTy s y.1 y.2 with
      | some t, some u => sameShape s t u
      | _, _ => true) &&
-    (if overlapB s x.1 y.1 then x.2.name == y.2.name && rec (typedSub s x.1 x.2 ++ typedSub s y.1 y.2) else true)
+    (if overlapB s x.1 y.1 then (x.2.name == y.2.name && x.2.args == y.2.args) && rec (typedSub s x.1 x.2 ++ typedSub s y.1 y.2) else true)
   else true
 
 /-- merge safety of a scope, `sf` = fuel for computing scopes -/
